@@ -45,7 +45,13 @@ def evaluated_block(rep, repo, smod, init, rules):
     from kvstatic import mapeval
     if not hasattr(repo, '_mapeval'):
         try:
-            repo._mapeval = mapeval.run(init)
+            from kvstatic import core as _core
+            key = _core.cache_key(repo, 'mapeval', ['sim'])
+            hit = _core.cache_get(key)
+            if hit is None:
+                hit = ('v', mapeval.run(init))
+                _core.cache_put(key, hit)
+            repo._mapeval = hit[1]
             repo._mapeval_why = 'an integer constant in the block is no op-column number (possible size threshold)'
         except ModelError as e:
             repo._mapeval = None
